@@ -5,7 +5,7 @@
 // spec/projection, it is not an oracle: nothing is compared in C++).
 // One ndjson event per call: {op, g, x, inv, fl, cp, mv, kind, hist, inst};  spec/ScopeTrace.tla judges.
 //
-// usage: scope_driver replay <functor|fptr> <nguards> <nf> <script.ndjson>
+// usage: scope_driver replay <functor|fptr|fref> <nguards> <nf> <script.ndjson>
 #include "common.hpp"
 
 #include <new>
@@ -37,7 +37,7 @@ public:
     {
     }
     scope_exit(scope_exit&& rhs) noexcept(std::is_nothrow_move_constructible_v<EF> || std::is_nothrow_copy_constructible_v<EF>)
-        : exit_function(pickm(rhs.exit_function, std::bool_constant<std::is_nothrow_move_constructible_v<EF>>{}))
+        : exit_function(pickm(rhs))
         , execute_on_destruction(rhs.execute_on_destruction)
     {
         rhs.release();
@@ -62,15 +62,15 @@ private:
     {
         return f;
     }
-    template <typename T>
-    static T&& pickm(T& f, std::true_type)
+    // "If is_nothrow_move_constructible_v<EF>, initializes exit_function with std::forward<EF>(rhs.exit_function),
+    //  otherwise with rhs.exit_function"
+    static decltype(auto) pickm(scope_exit& rhs)
     {
-        return static_cast<T&&>(f);
-    }
-    template <typename T>
-    static T const& pickm(T& f, std::false_type)
-    {
-        return f;
+        if constexpr (std::is_nothrow_move_constructible_v<EF>) {
+            return std::forward<EF>(rhs.exit_function);
+        } else {
+            return static_cast<std::remove_reference_t<EF> const&>(rhs.exit_function);
+        }
     }
     EF exit_function;
     bool execute_on_destruction{true};
@@ -127,6 +127,15 @@ template <>
 struct Make<F> {
     static F make(int id) { return F(id); }
 };
+F* g_objs[MAXF + 1]; // exit function objects owned by the harness (guards of kind "fref" only refer to them)
+template <>
+struct Make<F&> {
+    static F& make(int id)
+    {
+        if (g_objs[id] == nullptr) { g_objs[id] = new F(id); }
+        return *g_objs[id];
+    }
+};
 template <>
 struct Make<FP> {
     static FP make(int id) { return fptr_of(id); }
@@ -136,7 +145,8 @@ constexpr int MAXG = 3;
 
 template <typename Fn>
 struct Runner {
-    using SE = lib::scope_exit<Fn>;
+    using SE                    = lib::scope_exit<Fn>;
+    static constexpr bool byref = std::is_reference_v<Fn>;
     std::string kind;
     int ng, nf;
     alignas(SE) unsigned char store[MAXG][sizeof(SE)];
@@ -164,7 +174,11 @@ struct Runner {
                 live[i] = false;
             }
         }
-        for (int i = 0; i <= MAXF; ++i) { g_flive[i] = 0; }
+        for (int i = 0; i <= MAXF; ++i) {
+            delete g_objs[i];
+            g_objs[i] = nullptr;
+            g_flive[i] = 0;
+        }
         hist = json::array();
     }
 
@@ -187,7 +201,8 @@ struct Runner {
             {
                 Fn fn = Make<Fn>::make(f);
                 g_copies = g_moves = 0;
-                new (slot) SE(std::move(fn));
+                if constexpr (byref) { new (slot) SE(fn); } // a reference cannot bind to an rvalue
+                else { new (slot) SE(std::move(fn)); }
             }
             live[gi] = true;
             return true;
@@ -196,8 +211,12 @@ struct Runner {
             {
                 Fn fn = Make<Fn>::make(f);
                 g_copies = g_moves = 0;
-                auto* p = new (slot) lib::scope_exit{std::move(fn)}; // class template argument deduction
-                static_assert(std::is_same_v<decltype(p), SE*>, "deduction guide must yield scope_exit<decay_t<F>>");
+                if constexpr (byref) {
+                    new (slot) SE(fn); // deduction always decays: not applicable
+                } else {
+                    auto* p = new (slot) lib::scope_exit{std::move(fn)}; // class template argument deduction
+                    static_assert(std::is_same_v<decltype(p), SE*>, "deduction guide must yield scope_exit<decay_t<F>>");
+                }
             }
             live[gi] = true;
             return true;
@@ -207,8 +226,9 @@ struct Runner {
         if (op == "dtor") { se(gi).~SE(); live[gi] = false; return true; }
         if (op == "block") {
             {
-                lib::scope_exit e1{Make<Fn>::make(f)};
-                lib::scope_exit e2{Make<Fn>::make(f2)};
+                using E = std::conditional_t<byref, SE, decltype(lib::scope_exit{Make<Fn>::make(f)})>;
+                E e1{Make<Fn>::make(f)};
+                E e2{Make<Fn>::make(f2)};
                 if (x.value("r1", false)) { e1.release(); }
                 if (x.value("r2", false)) { e2.release(); }
             }
@@ -278,7 +298,7 @@ int run(std::string const& kind, int ng, int nf, char const* script)
 int main(int argc, char** argv)
 {
     if (argc < 6 || std::string(argv[1]) != "replay") {
-        std::fprintf(stderr, "usage: scope_driver replay <functor|fptr> <nguards> <nf> <script>\n");
+        std::fprintf(stderr, "usage: scope_driver replay <functor|fptr|fref> <nguards> <nf> <script>\n");
         return 2;
     }
     std::string kind = argv[2];
@@ -286,5 +306,8 @@ int main(int argc, char** argv)
     if (ng < 1 || ng > MAXG || nf < 1 || nf > MAXF) { return 2; }
     if (kind == "functor") { return run<F>(kind, ng, nf, argv[5]); }
     if (kind == "fptr") { return run<FP>(kind, ng, nf, argv[5]); }
+#if SCOPE_FREF
+    if (kind == "fref") { return run<F&>(kind, ng, nf, argv[5]); }
+#endif
     return 2;
 }
